@@ -432,8 +432,12 @@ def _const(run, P):
                 and _always_leaves(n.label.body)]
 
     cplx, boo = type_tests("complex"), type_tests("bool")
+    # (the formatting itself may sit in a helper of the printer)
+    fmt_helpers = {f"self.{nm}" for nm, m_ in f.cls.methods.items() if m_ is not f and any(
+        isinstance(x, ast.Call) and dotted(x.func) == "repr" for x in ast.walk(m_.node))}
     numeric = [n for n in g.nodes if n.kind == "stmt" and n.ast is not None and any(
-        isinstance(x, ast.Call) and dotted(x.func) == "repr" for x in walk_fragment(n.ast))]
+        isinstance(x, ast.Call) and (dotted(x.func) == "repr" or dotted(x.func) in fmt_helpers)
+        for x in walk_fragment(n.ast))]
     ok = bool(cplx) and bool(boo) and bool(numeric) \
         and not g.always_preceded(numeric, boo) and not g.always_preceded(numeric, cplx)
     run.ob("C03.const", f, f.node, ok,
